@@ -102,8 +102,9 @@ def r031(ctx, rid):
             for kind, _ in KINDS:
                 st = 'std::option::Option::take(self.kind).Some.0.%s.0' % kind
                 call = '%sState::%s(%s, self.channel_id, %s)' % (CC, step, st, argname)
-                done = [x for x in rows if len(x.conds) == 2 and x.conds[0][1] == 'Some(%sKind::%s(_))' % (CC, kind) and x.conds[1][1].startswith(CC + 'Content::Done(')]
-                more = [x for x in rows if len(x.conds) == 2 and x.conds[0][1] == 'Some(%sKind::%s(_))' % (CC, kind) and x.conds[1][1] == CC + 'Content::NeedMore(_)']
+                mine = [x for x in rows if len(x.conds) == 3 and x.conds[0][1] == 'Some(_)' and x.conds[1] == (x.conds[0][0] + '.Some.0', '%sKind::%s(_)' % (CC, kind))]
+                done = [x for x in mine if x.conds[2][1].startswith(CC + 'Content::Done(')]
+                more = [x for x in mine if x.conds[2][1] == CC + 'Content::NeedMore(_)']
                 if not r.check('%s:%s:rows' % (step, kind), len(done) == 1 and len(more) == 1, site, built=[x.row() for x in done + more]):
                     continue
                 d, m = done[0], more[0]
